@@ -291,7 +291,10 @@ class DictWorld(HistoryWorld):
             karg, kw = 'k%d' % mk, {}
             ctx.probe('caller-supplied-key-serialiser')
         v = self._norm(st, op['v'])
-        ok, r = call(st.h.set, karg, self._lib_value(st, op['v']), **kw)
+        if mk % 2 and not kw:
+            ok, r = call(st.h.set, key=karg, value=self._lib_value(st, op['v']))     # keyword spelling
+        else:
+            ok, r = call(st.h.set, karg, self._lib_value(st, op['v']), **kw)
         if not ok:
             self.V(ctx, 'valid-key-refused', 'set', op['form'], 'set(%s key %d of width %d) raised %r' % (op['form'], mk, st.n, r))
             return
